@@ -351,7 +351,7 @@ def deep_compare(obj1: Any,
 
                     elif isinstance(value2, float):
                         if math.isnan(value2):
-                            return -1
+                            return 1
                         elif math.isinf(value2):
                             if value1 != value2:
                                 return -1 if value1 < value2 else 1
